@@ -9,7 +9,9 @@ import (
 	"golang.org/x/tools/go/ssa"
 )
 
-func init() { register("C16", []string{".", "./pkg/dialects/minimal", "./pkg/dialects/common"}, runC16) }
+func init() {
+	register("C16", []string{".", "./pkg/dialects/minimal", "./pkg/dialects/common"}, runC16)
+}
 
 // skipGuards: for an initialize() function, the set of If-conditions (with polarity) whose edge leads only to
 // `return errSkip`.
@@ -147,7 +149,7 @@ func runC16(c *Ctx) {
 		for _, g := range goStmts(ini) {
 			if _, n := goTarget(g); n == "(gomavlib."+mod+").run" {
 				for _, iff := range ifsIn(ini) {
-					if ex(iff.Cond) == "(recv."+mod+" != nil)" && edgeMustPass(ini, edge{iff.Block(), iff.Block().Succs[0]}, g.Block()) {
+					if tb, _, hit := succWhen(iff, "(recv."+mod+" != nil)"); hit && edgeMustPass(ini, edge{iff.Block(), tb}, g.Block()) {
 						okGo = true
 					}
 				}
@@ -160,7 +162,7 @@ func runC16(c *Ctx) {
 		ok := false
 		for _, ci := range callsNamed(rd, "(gomavlib.nodeStreamRequest).onEventFrame") {
 			for _, iff := range ifsIn(rd) {
-				if ex(iff.Cond) == "(recv.node.nodeStreamRequest != nil)" && edgeMustPass(rd, edge{iff.Block(), iff.Block().Succs[0]}, ci.Block()) {
+				if tb, _, hit := succWhen(iff, "(recv.node.nodeStreamRequest != nil)"); hit && edgeMustPass(rd, edge{iff.Block(), tb}, ci.Block()) {
 					ok = true
 				}
 			}
@@ -264,60 +266,99 @@ func runC16(c *Ctx) {
 		}
 	}
 	r.Check(keyOK, "R16.3", "onEventFrame rate-limit key", c.Pos(oef.Pos()), gotKey, "the rate-limit key must be exactly (channel, system id, component id) of the sender; got "+orStr(gotKey, "no streamNode key")+": senders are conflated or never limited")
-	// closure under mutex
+	// the rate-limit section: a function (closure or immediately-invoked helper) called from onEventFrame that
+	// takes the mutex; its decision is either a captured flag set to true or a `return true`
 	var lim *ssa.Function
-	for _, cl := range c.AllFns {
-		if cl.Parent() == oef && len(callsNamed(cl, "(sync.Mutex).Lock")) > 0 {
-			lim = cl
+	var limCall ssa.Value
+	for _, in := range allInstrs(oef) {
+		call, ok := in.(*ssa.Call)
+		if !ok {
+			continue
+		}
+		var f *ssa.Function
+		if mc, ok := call.Call.Value.(*ssa.MakeClosure); ok {
+			f = mc.Fn.(*ssa.Function)
+		} else if sf := call.Call.StaticCallee(); sf != nil && sf.Blocks != nil && inPkg(sf, "gomavlib/v3") {
+			f = sf
+		}
+		if f != nil && len(callsNamed(f, "(sync.Mutex).Lock")) > 0 {
+			lim, limCall = f, call
 		}
 	}
+	decision := map[string]bool{} // renderings of the condition value that means "request"
 	if lim == nil {
 		r.Fail("R16.3", "onEventFrame rate limit", c.Pos(oef.Pos()), "no mutex-protected rate-limit section found")
 	} else {
 		var probs []string
-		var lk *ssa.Lookup
+		// lock held over the whole section
+		lk := callsNamed(lim, "(sync.Mutex).Lock")
+		if len(lk) != 1 || lk[0].Block() != lim.Blocks[0] {
+			probs = append(probs, "the mutex is not taken at the start of the rate-limit section")
+		}
+		var lkp *ssa.Lookup
 		for _, in := range allInstrs(lim) {
-			if l, ok := in.(*ssa.Lookup); ok && l.CommaOk && ex(l.X) == "recv.lastRequests" {
-				lk = l
+			if l, ok := in.(*ssa.Lookup); ok && l.CommaOk && strings.HasSuffix(ex(l.X), ".lastRequests") {
+				lkp = l
 			}
 		}
-		if lk == nil {
+		if lkp == nil {
 			probs = append(probs, "no comma-ok lookup of the sender in lastRequests")
 		}
 		nReq, nUpd := 0, 0
+		checkDecision := func(b *ssa.BasicBlock) {
+			nReq++
+			okEdge := false
+			for _, iff := range ifsIn(lim) {
+				if lkp != nil {
+					if _, absent, hit := succWhen(iff, ex(lkp)+"#1"); hit && edgeMustPass(lim, edge{iff.Block(), absent}, b) {
+						// not additionally on the ">= period" edge
+						onPeriod := false
+						for _, i2 := range ifsIn(lim) {
+							if tb, _, _, h2 := succWhenFunc(i2, func(cs string) bool {
+								return strings.Contains(cs, "(time.Time).Sub(") && strings.HasSuffix(cs, " >= 30000000000)")
+							}); h2 && edgeMustPass(lim, edge{i2.Block(), tb}, b) {
+								onPeriod = true
+							}
+						}
+						if !onPeriod {
+							okEdge = true
+						}
+					}
+				}
+				if tb, _, _, hit := succWhenFunc(iff, func(cs string) bool {
+					return strings.Contains(cs, "(time.Time).Sub(") && strings.HasSuffix(cs, " >= 30000000000)")
+				}); hit && edgeMustPass(lim, edge{iff.Block(), tb}, b) {
+					okEdge = true
+				}
+			}
+			if !okEdge {
+				probs = append(probs, "a request is triggered on a path that is neither `sender unknown` nor `last request ≥ 30 s ago`")
+			}
+			upd := false
+			for _, in2 := range b.Instrs {
+				if mu, ok := in2.(*ssa.MapUpdate); ok && strings.HasSuffix(ex(mu.Map), ".lastRequests") {
+					upd = true
+				}
+			}
+			if !upd {
+				probs = append(probs, "a request is triggered without recording its time")
+			}
+		}
 		for _, in := range allInstrs(lim) {
 			switch x := in.(type) {
 			case *ssa.Store:
-				if strings.HasSuffix(ex(x.Addr), "local:request") && ex(x.Val) == "true" {
-					nReq++
-					// must be on the absent edge or on the >= period edge
-					b := x.Block()
-					okEdge := false
-					for _, iff := range ifsIn(lim) {
-						cs := ex(iff.Cond)
-						if lk != nil && cs == ex(lk)+"#1" && edgeMustPass(lim, edge{iff.Block(), iff.Block().Succs[1]}, b) && !strings.Contains(bcond(lim, b), ">=") {
-							okEdge = true
-						}
-						if strings.Contains(cs, "(time.Time).Sub(") && strings.HasSuffix(cs, " >= 30000000000)") && edgeMustPass(lim, edge{iff.Block(), iff.Block().Succs[0]}, b) {
-							okEdge = true
-						}
-					}
-					if !okEdge {
-						probs = append(probs, "a request is triggered on a path that is neither `sender unknown` nor `last request ≥ 30 s ago`")
-					}
-					// the table must be updated in the same block
-					upd := false
-					for _, in2 := range b.Instrs {
-						if mu, ok := in2.(*ssa.MapUpdate); ok && ex(mu.Map) == "recv.lastRequests" {
-							upd = true
-						}
-					}
-					if !upd {
-						probs = append(probs, "a request is triggered without recording its time")
-					}
+				// decision = true stored into a captured flag or into the (defer-spilled) boolean result
+				_, isAlloc := x.Addr.(*ssa.Alloc)
+				_, isFree := x.Addr.(*ssa.FreeVar)
+				if (isAlloc || isFree) && ex(x.Val) == "true" {
+					checkDecision(x.Block())
+				}
+			case *ssa.Return:
+				if len(x.Results) == 1 && ex(x.Results[0]) == "true" {
+					checkDecision(x.Block())
 				}
 			case *ssa.MapUpdate:
-				if ex(x.Map) == "recv.lastRequests" {
+				if strings.HasSuffix(ex(x.Map), ".lastRequests") {
 					nUpd++
 				}
 			}
@@ -326,6 +367,22 @@ func runC16(c *Ctx) {
 			probs = append(probs, fmt.Sprintf("%d request decisions, %d table updates (expected 2 and 2)", nReq, nUpd))
 		}
 		r.Check(len(probs) == 0, "R16.3", "onEventFrame rate limit", c.Pos(lim.Pos()), "request iff unknown sender or ≥ 30 s since the last request; table updated on exactly those paths", strings.Join(probs, "; "))
+		if lim.Signature.Results().Len() == 1 {
+			decision[ex(limCall)] = true
+		}
+	}
+	for _, in := range allInstrs(oef) {
+		if u, ok := in.(*ssa.UnOp); ok && strings.HasSuffix(ex(u), "local:request") {
+			decision[ex(u)] = true
+		}
+	}
+	underDecision := func(b *ssa.BasicBlock) bool {
+		for d := range decision {
+			if condTrueAt(oef, d, b) {
+				return true
+			}
+		}
+		return false
 	}
 
 	// R16.4
@@ -389,21 +446,9 @@ func runC16(c *Ctx) {
 			okEv = exOrNil(lf["Channel"]) == "arg0.Channel" && exOrNil(lf["SystemID"]) == "(gomavlib.EventFrame).SystemID(arg0)" && exOrNil(lf["ComponentID"]) == "(gomavlib.EventFrame).ComponentID(arg0)"
 		}
 		// under `request`
-		g := false
-		for _, iff := range ifsIn(oef) {
-			if strings.HasSuffix(ex(iff.Cond), "local:request") && edgeMustPass(oef, edge{iff.Block(), iff.Block().Succs[0]}, pe[0].Block()) {
-				g = true
-			}
-		}
-		okEv = okEv && g
+		okEv = okEv && underDecision(pe[0].Block())
 		for _, w := range wt {
-			gw := false
-			for _, iff := range ifsIn(oef) {
-				if strings.HasSuffix(ex(iff.Cond), "local:request") && edgeMustPass(oef, edge{iff.Block(), iff.Block().Succs[0]}, w.Block()) {
-					gw = true
-				}
-			}
-			okEv = okEv && gw
+			okEv = okEv && underDecision(w.Block())
 		}
 	}
 	r.Check(okEv, "R16.4", "onEventFrame stream-requested event", c.Pos(oef.Pos()), "one EventStreamRequested{channel, system, component} per request", "exactly one EventStreamRequested carrying the sender's (channel, system id, component id) must be pushed per request, and requests/events only when a request was decided")
